@@ -6,6 +6,7 @@ import (
 	"encoding/binary"
 	"encoding/hex"
 	"fmt"
+	"io"
 	"sort"
 	"strings"
 	"sync"
@@ -282,6 +283,39 @@ var singleOps = []string{"Put", "Get", "GetFromComposite", "FindMissing"}
 
 // doSingle performs one single-digest operation on the composite; for Get
 // variants it returns the bytes read (real digests) and the error.
+// consumeRead reads dg completely through one consumption method and returns the error the consumer saw.
+func consumeRead(ba blobstore.BlobAccess, op, how string, dg, child digest.Digest) error {
+	ctx := context.Background()
+	var b buffer.Buffer
+	if op == "Get" {
+		b = ba.Get(ctx, dg)
+	} else {
+		b = ba.GetFromComposite(ctx, dg, child, sliceAll{})
+	}
+	switch how {
+	case "ToByteSlice":
+		_, err := b.ToByteSlice(1000)
+		return err
+	case "IntoWriter":
+		return b.IntoWriter(io.Discard)
+	case "ToReader":
+		r := b.ToReader()
+		_, err := io.ReadAll(r)
+		r.Close()
+		return err
+	default:
+		cr := b.ToChunkReader(0, 2)
+		defer cr.Close()
+		for {
+			if _, err := cr.Read(); err == io.EOF {
+				return nil
+			} else if err != nil {
+				return err
+			}
+		}
+	}
+}
+
 func doSingle(ba blobstore.BlobAccess, op string, d dspec, dg, child digest.Digest) ([]byte, digest.Set, error) {
 	ctx := context.Background()
 	switch op {
@@ -684,7 +718,7 @@ func checkCraftedReadError(err error, list []shardJ, target int) string {
 func runErrors(list []shardJ, filter *compCase, st *compStats, emit func(compViol)) {
 	ctx := context.Background()
 	names := []string{"", "a/b"}
-	for _, fails := range failSpecs(len(list)) {
+	for fi, fails := range failSpecs(len(list)) {
 		if filter != nil && !sameFails(filter.Fails, fails) {
 			continue
 		}
@@ -743,6 +777,56 @@ func runErrors(list []shardJ, filter *compCase, st *compStats, emit func(compVio
 					}
 					if len(st.sample) < 1 && failing && op == "Get" && len(list) == 2 {
 						st.sample = append(st.sample, map[string]any{"sub": "composite-errors", "case": c, "error": fmt.Sprint(err)})
+					}
+				}
+			}
+			// Reads from streaming backends (reader-backed buffers, as block-device stores and gRPC backends hand
+			// out): (a) a failure that only shows while the data is consumed - the stream of the target shard
+			// fails with UNAVAILABLE after half of the bytes; (b) crafted digests, whose integrity error only
+			// shows at the end of the stream. Every consumption method; the error must carry the shard key.
+			for di, d := range digestUniverse {
+				for _, op := range []string{"Get", "GetFromComposite"} {
+					for _, how := range []string{"ToByteSlice", "IntoWriter", "ToReader", "ToChunkReader"} {
+						lop := "late:" + op + ":" + how
+						if filter != nil && (filter.Op != lop || filter.Digest != di) {
+							continue
+						}
+						if fi != 0 {
+							continue // once per shard list, not per injected-failure pattern (the case records the first)
+						}
+						c := compCase{Sub: "composite-errors", Shards: list, Instance: in, Op: lop, Digest: di, Child: (di + 1) % len(digestUniverse), Fails: fails}
+						f := newFixture(list, nil)
+						target := f.route(d)
+						if target < 0 {
+							continue
+						}
+						for _, b := range f.backends {
+							b.Streaming = true
+						}
+						if d.Real {
+							f.backends[target].LateError = status.Errorf(codes.Unavailable, "injected failure #%d: the stream broke midway", target)
+						}
+						dg := d.digest(in)
+						child := digestUniverse[c.Child].digest(in)
+						f.backends[target].Store(dg, d.Content)
+						var err error
+						if p := recovered(func() { err = consumeRead(f.ba, op, how, dg, child) }); p != nil {
+							emit(compViol{"errors:panic:" + lop, fmt.Sprintf("%s(%s) panicked: %v", lop, dg, p), c})
+							continue
+						}
+						st.evals++
+						st.nontrivial++
+						st.outcome(fmt.Sprintf("%s:k=%d:%s", lop, len(list), sim.Code(err)))
+						if d.Real {
+							if m := checkShardError(err, list, []failSpec{{Backend: target, Code: "Unavailable"}}); m != "" {
+								emit(compViol{"errors:late-shard-error-not-attributed:" + op, fmt.Sprintf("%s of %s consumed with %s, stream of shard %q failing midway: %s", op, dg, how, list[target].Key, m), c})
+							}
+						} else if err == nil || status.Code(err) != codes.Internal {
+							// The mismatch of a streamed object is found by the consumer-side validation at the end of
+							// the stream, above the error handler that adds the shard key: it is not a shard's answer,
+							// so the key is not demanded - only that the read does not complete.
+							emit(compViol{"errors:streamed-mismatch-completes:" + op, fmt.Sprintf("%s of %s (%s) streamed by shard %q, consumed with %s: expected the INTERNAL integrity error, got %v", op, dg, d.Name, list[target].Key, how, err), c})
+						}
 					}
 				}
 			}
